@@ -287,6 +287,12 @@ func genLayoutPairs(rng *gen.Rng, seqLen, seqSample, trees int, emit func(Case))
 	for n := 1; n <= seqLen; n++ {
 		for i := 0; i < gen.Pow(n); i++ {
 			seq(gen.TokenParts(i, n))
+			if n <= 2 {
+				// short sequences: every kind of variant, several keyword spellings
+				for k := 0; k < 6; k++ {
+					seq(gen.TokenParts(i, n))
+				}
+			}
 		}
 	}
 	for i := 0; i < seqSample; i++ {
@@ -321,6 +327,9 @@ func genLayoutPairs(rng *gen.Rng, seqLen, seqSample, trees int, emit func(Case))
 
 // specC15: the clauses of C15 judged on the implementation with tracing maps, against the obvious catamorphism.
 func specC15(c *Case, ps []*Probe) []string {
+	if c.Kind == "isolation" && len(ps) > 0 && ps[0].Lex != nil {
+		return ps[0].Lex.Fails
+	}
 	if c.Kind != "render" || len(ps) < 2 {
 		return nil
 	}
@@ -328,10 +337,12 @@ func specC15(c *Case, ps []*Probe) []string {
 	r := ps[1].Impl["R"]
 	rp := ps[1].Impl["RP"]
 	var out []string
-	if r == "panic" && !ps[1].Loose {
-		out = append(out, "Render panicked")
-	}
 	parts := strings.Split(c.Rel, ":")
+	// with maps made of tracing functions only, nothing but Base itself can panic (the built-in functions are partial
+	// on trees that do not validate: that is C13's subject, not C15's)
+	if r == "panic" && !ps[1].Loose && (parts[0] == "trace" || parts[0] == "trace-minus" || parts[0] == "fail") {
+		out = append(out, "Render panicked although every registered function is total")
+	}
 	arg := -1
 	if len(parts) == 2 {
 		arg, _ = strconv.Atoi(parts[1])
@@ -393,6 +404,11 @@ func genRenderCases(rng *gen.Rng, count int, emit func(Case)) {
 			desc = "pg"
 		default:
 			desc = "shared"
+		}
+		if rng.Chance(1, 3) {
+			// trees that only the JSON decoder (or the constructors) can build: pattern items in lists, odd shapes
+			emit(Case{Gen: "G5-render", Kind: "render", S: gen.JSONExpr(rng, 1+rng.Intn(3), rng.Chance(3, 4)), Rel: desc, Aux: "json", Idx: i})
+			continue
 		}
 		t := gen.RandomTree(rng, 1+rng.Intn(4))
 		df := ""
@@ -813,6 +829,10 @@ func init() {
 			}
 			emit(Case{Gen: "G3-bytes", Kind: "q", S: s, DF: gen.Pick(rng, gen.DefaultFields), Idx: i})
 		}
+		for i, s := range gen.NestedShapes() {
+			emit(Case{Gen: "G3-nested", Kind: "q", S: s, Idx: i})
+			emit(Case{Gen: "G3-nested", Kind: "q", S: s, DF: "df", Idx: i})
+		}
 		// adversarial shapes: a few hundred tokens against the model, 10^4 tokens on the implementation alone
 		// (no panic, no runaway: every call is under the watchdog)
 		for i, s := range gen.BigShapes(tiered(cfg, 300, 600)) {
@@ -913,6 +933,7 @@ func init() {
 	}})
 	add(&Property{ID: "C15", Fields: fields("R"), Spec: specC15, Generate: func(cfg RunConfig, emit func(Case)) {
 		rng := gen.NewRng(cfg.Seed, 15)
+		emit(Case{Gen: "isolation", Kind: "isolation", S: "a:b"})
 		genRenderCases(rng, tiered(cfg, 120000, 2000000), emit)
 	}})
 	add(&Property{ID: "C05", Fields: fields("P"), Spec: specTree, Generate: func(cfg RunConfig, emit func(Case)) {
@@ -920,11 +941,15 @@ func init() {
 		genTrees(rng, tiered(cfg, 150000, 3000000), 4, emit)
 		genTokenSeqs(tiered(cfg, 3, 4), []string{""}, emit)
 	}})
-	add(&Property{ID: "C06", Fields: fields("P"), Spec: noSpec, Generate: func(cfg RunConfig, emit func(Case)) {
+	add(&Property{ID: "C06", Fields: fields("P"), Spec: specFromProbes("accepted query: "), Generate: func(cfg RunConfig, emit func(Case)) {
 		rng := gen.NewRng(cfg.Seed, 6)
-		genTokenSeqs(tiered(cfg, 3, 4), []string{"", "df"}, emit)
-		genSampledSeqs(rng, tiered(cfg, 100000, 3000000), 4, 10, gen.DefaultFields, emit)
-		genTrees(rng, tiered(cfg, 30000, 500000), 4, emit)
+		der := asKind("qder", emit)
+		genTokenSeqs(tiered(cfg, 3, 4), []string{"", "df"}, der)
+		genSampledSeqs(rng, tiered(cfg, 100000, 3000000), 4, 10, gen.DefaultFields, der)
+		genTrees(rng, tiered(cfg, 30000, 500000), 4, func(c Case) { c.Want = ""; der(c) })
+		for i := 0; i < tiered(cfg, 40000, 800000); i++ {
+			der(Case{Gen: "G4-fieldquery", Kind: "q", S: gen.FieldQuery(rng), DF: gen.Pick(rng, []string{"", "", "df"}), Idx: i})
+		}
 	}})
 	add(&Property{ID: "C07", Fields: fields("P"), Spec: specPair, Generate: func(cfg RunConfig, emit func(Case)) {
 		rng := gen.NewRng(cfg.Seed, 7)
